@@ -40,18 +40,24 @@ def run_one(d):
 
 
 def main():
+    """usage: seeded_table.py [jobs] [id-regex]   - results are merged into seeded/RESULTS.json after every finished change, so an
+    interrupted run loses nothing; with an id-regex only the matching changes are (re)run."""
     ds = sorted(x for x in os.listdir(os.path.join(VERIF, 'seeded')) if os.path.exists(os.path.join(VERIF, 'seeded', x, 'meta.json')))
     jobs = int(sys.argv[1]) if len(sys.argv) > 1 else 3
-    res = []
+    if len(sys.argv) > 2: ds = [d for d in ds if re.search(sys.argv[2], d)]
+    rp = os.path.join(VERIF, 'seeded', 'RESULTS.json')
+    try: res = {r['id']: r for r in json.load(open(rp))}
+    except Exception: res = {}
+    head = subprocess.run(['git', '-C', VERIF, 'rev-parse', '--short', 'HEAD'], capture_output=True, text=True).stdout.strip()
     with cf.ThreadPoolExecutor(jobs) as ex:
         for d, meta, outcome, ob in ex.map(run_one, ds):
             f, fn = site(os.path.join(VERIF, 'seeded', d, 'patch.diff'))
-            res.append({'id': d, 'property': meta['property'], 'files': f, 'site': fn, 'needs': meta.get('needs_to_manifest', ''), 'outcome': outcome, 'obligation': ob})
+            res[d] = {'id': d, 'property': meta['property'], 'files': f, 'site': fn, 'needs': meta.get('needs_to_manifest', ''), 'outcome': outcome, 'obligation': ob, 'verif_commit': head}
+            json.dump([res[k] for k in sorted(res)], open(rp, 'w'), indent=1)
             print(f"{d}: {outcome}", file=sys.stderr, flush=True)
-    json.dump(res, open(os.path.join(VERIF, 'seeded', 'RESULTS.json'), 'w'), indent=1)
     print('| id | property | site | needs, in order to manifest | check outcome | first failing obligation |')
     print('|----|----------|------|-----------------------------|---------------|--------------------------|')
-    for r in res:
+    for r in [res[k] for k in sorted(res)]:
         ob = r['obligation'].replace('|', '¦')
         ob = re.sub(r'\s+', ' ', ob)[:150]
         print(f"| {r['id']} | {r['property']} | `{r['files']}` {r['site'].replace('|', '¦')} | {r['needs'][:140]} | {r['outcome']} | {ob} |")
